@@ -56,6 +56,13 @@ struct Schedule {
   /// 2 while the first collection of a double collection is pending, 1 while the second is
   double_pending: u8,
   native: bool,
+  /// fired_total at the last accounting evaluation (a sampled quiescent point has seen no collection since)
+  evaluated_at_fired: u64,
+  /// the byte threshold watch: first allocation index of the current run of allocations above the threshold
+  over_since: Option<u64>,
+  over_fired: u64,
+  watch_from: u64,
+  over_reported: bool,
 }
 
 thread_local! {
@@ -192,6 +199,37 @@ fn collected(full: bool) {
   });
 }
 
+/// Under the shipped byte threshold policy an allocation that leaves the byte count above the threshold is followed by
+/// a collection. The runtime cannot collect in a few contexts (start-up, parts of compilation), so only a long run of
+/// allocations above the threshold without any collection counts
+fn threshold_watch(index: u64, bytes_allocated: usize, next_gc: usize) {
+  SCHEDULE.with(|schedule| {
+    let schedule = &mut *schedule.borrow_mut();
+    if !schedule.acct || !schedule.native || index < schedule.watch_from {
+      return;
+    }
+    if bytes_allocated > next_gc {
+      match schedule.over_since {
+        Some(since) if schedule.over_fired == schedule.fired_total => {
+          if index - since >= 300 && !schedule.over_reported {
+            schedule.over_reported = true;
+            schedule.acct_violations.push(format!(
+              "byte count above the collection threshold for {} allocations in a row without a collection (allocation {}: {} bytes allocated, threshold {})",
+              index - since, index, bytes_allocated, next_gc
+            ));
+          }
+        },
+        _ => {
+          schedule.over_since = Some(index);
+          schedule.over_fired = schedule.fired_total;
+        },
+      }
+    } else {
+      schedule.over_since = None;
+    }
+  });
+}
+
 fn stats_json(allocator: &Allocator) -> (Value, Vec<String>) {
   let stats = allocator.verif_stats();
   let arena = ARENA.state();
@@ -268,10 +306,18 @@ fn quiescent(allocator: &Allocator) {
   }
 
   let (mut value, mut problems) = stats_json(allocator);
-  let (last_full, native, index) = SCHEDULE.with(|schedule| {
-    let schedule = schedule.borrow();
-    (schedule.last_full, schedule.native, schedule.last_collection_index)
+  let (last_full, native, index, after_collection) = SCHEDULE.with(|schedule| {
+    let schedule = &mut *schedule.borrow_mut();
+    let after_collection = schedule.fired_total != schedule.evaluated_at_fired;
+    schedule.evaluated_at_fired = schedule.fired_total;
+    (
+      schedule.last_full && after_collection,
+      schedule.native && after_collection,
+      if after_collection { schedule.last_collection_index } else { verif::alloc_index() },
+      after_collection,
+    )
   });
+  value["sampled"] = json!(!after_collection);
 
   if last_full {
     if let Err(message) = allocator.verif_intern_consistent() {
@@ -299,9 +345,12 @@ fn quiescent(allocator: &Allocator) {
     schedule.acct_checks += 1;
     for problem in problems {
       if schedule.acct_violations.len() < 20 {
-        schedule
-          .acct_violations
-          .push(format!("after collection at allocation {}: {}", index, problem));
+        schedule.acct_violations.push(format!(
+          "{} {}: {}",
+          if after_collection { "after collection at allocation" } else { "at the entry of allocation" },
+          index,
+          problem
+        ));
       }
     }
     if schedule.acct_samples.len() < 3000 {
@@ -343,6 +392,7 @@ fn install_schedule(job: &Value) {
     q_den: get_u64(&gc, "q_den", 2),
     rng: get_u64(&gc, "seed", 1) | 1,
     acct: job.get("acct").and_then(|v| v.as_bool()).unwrap_or(false),
+    watch_from: get_u64(job, "watch_from", 600),
     ..Schedule::default()
   };
 
@@ -373,6 +423,8 @@ fn install_schedule(job: &Value) {
   verif::set_gc_decider(Some(decide));
   verif::set_collected(Some(collected));
   verif::set_quiescent(Some(quiescent));
+  verif::set_threshold_watch(Some(threshold_watch));
+  verif::set_quiescent_every(get_u64(job, "acct_every", 0));
 }
 
 fn panic_value(payload: Box<dyn std::any::Any + Send>) -> Value {
@@ -543,6 +595,8 @@ fn run_job(job: &Value) -> Value {
   verif::set_gc_decider(None);
   verif::set_collected(None);
   verif::set_quiescent(None);
+  verif::set_threshold_watch(None);
+  verif::set_quiescent_every(0);
   verif::set_tick_budget(u64::MAX);
 
   let steps = verif::ticks();
